@@ -8,6 +8,7 @@ import (
 	"bytes"
 	"fmt"
 	"math/big"
+	"reflect"
 	"runtime"
 	"strings"
 	"testing"
@@ -25,6 +26,167 @@ type vfO struct {
 	A uint64
 	B uint64 `rlp:"optional"`
 	C []byte `rlp:"optional"`
+}
+
+// generated Go types with nested structs and lists; each is handed to the codec struct-first, so
+// the type cache builds the slice/array element information while the struct is still in progress
+type vfTree struct {
+	V    uint64
+	Kids []vfTree
+}
+type vfTailTree struct {
+	V    uint64
+	Kids []vfTailTree `rlp:"tail"`
+}
+type vfPtrTree struct {
+	V    uint64
+	Kids []*vfPtrTree
+}
+type vfChain struct {
+	V    []byte
+	Next *vfChain `rlp:"nil"`
+}
+type vfPair struct {
+	X uint16
+	Y []byte
+}
+type vfArr struct {
+	P [2]vfPair
+	Q [][]uint64
+	R [3]byte
+	T []vfPair
+}
+
+func vfGenTree(r *vfRand, d int) vfTree {
+	t := vfTree{V: r.U64() >> uint(r.Intn(64)), Kids: []vfTree{}}
+	if d > 0 {
+		for k := r.Pick(0, 1, 2, 3); k > 0; k-- {
+			t.Kids = append(t.Kids, vfGenTree(r, d-1))
+		}
+	}
+	return t
+}
+func vfGenTailTree(r *vfRand, d int) vfTailTree {
+	t := vfTailTree{V: r.U64() >> uint(r.Intn(64))}
+	if d > 0 {
+		for k := r.Pick(0, 1, 2, 3); k > 0; k-- {
+			t.Kids = append(t.Kids, vfGenTailTree(r, d-1))
+		}
+	}
+	return t
+}
+func vfGenPtrTree(r *vfRand, d int) *vfPtrTree {
+	t := &vfPtrTree{V: r.U64() >> uint(r.Intn(64)), Kids: []*vfPtrTree{}}
+	if d > 0 {
+		for k := r.Pick(0, 1, 2, 3); k > 0; k-- {
+			t.Kids = append(t.Kids, vfGenPtrTree(r, d-1))
+		}
+	}
+	return t
+}
+func vfGenChain(r *vfRand, d int) *vfChain {
+	c := &vfChain{V: vfGenBytes(r)}
+	if len(c.V) > 64 {
+		c.V = c.V[:64]
+	}
+	if d > 0 && r.Chance(75) {
+		c.Next = vfGenChain(r, d-1)
+	}
+	return c
+}
+func vfGenArr(r *vfRand) vfArr {
+	a := vfArr{Q: [][]uint64{}, T: []vfPair{}}
+	for i := range a.P {
+		a.P[i] = vfPair{X: uint16(r.Intn(65536)), Y: r.Bytes(r.Intn(4))}
+	}
+	for k := r.Intn(3); k > 0; k-- {
+		q := []uint64{}
+		for j := r.Intn(3); j > 0; j-- {
+			q = append(q, r.U64()>>uint(r.Intn(64)))
+		}
+		a.Q = append(a.Q, q)
+	}
+	copy(a.R[:], r.Bytes(3))
+	for k := r.Intn(3); k > 0; k-- {
+		a.T = append(a.T, vfPair{X: uint16(r.Intn(300)), Y: r.Bytes(r.Intn(3))})
+	}
+	return a
+}
+
+// vfSame: structural equality that does not distinguish a nil slice from an empty one
+func vfSame(a, b reflect.Value) bool {
+	if a.Kind() != b.Kind() {
+		return false
+	}
+	switch a.Kind() {
+	case reflect.Ptr:
+		if a.IsNil() || b.IsNil() {
+			return a.IsNil() == b.IsNil()
+		}
+		return vfSame(a.Elem(), b.Elem())
+	case reflect.Struct:
+		for i := 0; i < a.NumField(); i++ {
+			if !vfSame(a.Field(i), b.Field(i)) {
+				return false
+			}
+		}
+		return true
+	case reflect.Slice, reflect.Array:
+		if a.Len() != b.Len() {
+			return false
+		}
+		for i := 0; i < a.Len(); i++ {
+			if !vfSame(a.Index(i), b.Index(i)) {
+				return false
+			}
+		}
+		return true
+	default:
+		return reflect.DeepEqual(a.Interface(), b.Interface())
+	}
+}
+
+// vfTypedRoundTrip: encode `in` (a pointer), compare with the reference encoder, decode into a
+// fresh value of the same type, compare; then decode a mutated encoding (must not panic; when it
+// is accepted it must be the canonical encoding of what it decodes to)
+func vfTypedRoundTrip(o *vfOut, r *vfRand, name string, in interface{}) {
+	var enc []byte
+	if vfGuard(o, "panic-encode", func() string { return name }, func() {
+		var err error
+		enc, err = EncodeToBytes(in)
+		if err != nil {
+			o.Viol("encode-error", name+" "+err.Error())
+		}
+	}) {
+		return
+	}
+	if genc, gerr := gethrlp.EncodeToBytes(in); gerr == nil && !bytes.Equal(genc, enc) {
+		o.Viol("encode-differs-from-reference", fmt.Sprintf("%s kardia=%x geth=%x", name, enc, genc))
+	}
+	h := vfHex(enc)
+	vfGuard(o, "panic-decode", func() string { return name + " " + h }, func() {
+		out := reflect.New(reflect.TypeOf(in).Elem())
+		if err := DecodeBytes(enc, out.Interface()); err != nil {
+			o.Viol("roundtrip-typed", fmt.Sprintf("%s: decoding its own encoding %x fails: %v", name, enc, err))
+			return
+		}
+		if !vfSame(reflect.ValueOf(in), out) {
+			o.Viol("roundtrip-typed", fmt.Sprintf("%s: %x decodes to a different value: %+v", name, enc, out.Elem().Interface()))
+		}
+	})
+	mb := vfMutate(r, enc)
+	mh := vfHex(mb)
+	vfGuard(o, "panic-decode", func() string { return name + " " + mh }, func() {
+		out := reflect.New(reflect.TypeOf(in).Elem())
+		if err := DecodeBytes(mb, out.Interface()); err == nil {
+			o.Stat("typed." + name + ".mutated-accepted")
+			if re, _ := EncodeToBytes(out.Interface()); !bytes.Equal(re, mb) {
+				o.Viol("noncanonical-accepted", fmt.Sprintf("%s: input=%x reencoded=%x", name, mb, re))
+			}
+		}
+	})
+	o.Stat("typed." + name)
+	o.Case("t:"+name+":"+h, len(enc) > 2)
 }
 
 func vfItemText(v interface{}) string {
@@ -366,6 +528,18 @@ func TestVerifC16(t *testing.T) {
 				}
 			})
 			o.Stat(fmt.Sprintf("intpayload.%dB.zeros%d", sz, zeros))
+		}
+
+		// ---- (d) generated struct/list types (recursive through slices, tail slices, pointers; arrays)
+		{
+			t1 := vfGenTree(r, 3)
+			vfTypedRoundTrip(o, r, "tree", &t1)
+			t2 := vfGenTailTree(r, 3)
+			vfTypedRoundTrip(o, r, "tailtree", &t2)
+			vfTypedRoundTrip(o, r, "ptrtree", vfGenPtrTree(r, 3))
+			vfTypedRoundTrip(o, r, "chain", vfGenChain(r, 4))
+			t5 := vfGenArr(r)
+			vfTypedRoundTrip(o, r, "arr", &t5)
 		}
 
 		// ---- (c) integers and typed values: encode and decode back
